@@ -406,7 +406,7 @@ func abstractCases() []c07Case {
 	wrap := func(key, decl, stmt, want string) c07Case {
 		return c07Case{Key: key, Want: want, Src: pre + decl + "try { " + stmt + " __obs(\"r\", 1); } catch (Throwable $e) { __obs(\"!r\", $e->getMessage()); }\n"}
 	}
-	return []c07Case{
+	cases := []c07Case{
 		wrap("cell:inst:abstract-class", "abstract class AB { abstract function m(); }\n", "$x = new AB();", "deny"),
 		wrap("cell:inst:interface", "interface IF1 { function m(); }\n", "$x = new IF1();", "deny"),
 		wrap("cell:inst:concrete-ok", "abstract class AB { abstract function m(); }\nclass CO extends AB { function m() { return 1; } }\n", "$x = new CO();", "allow"),
@@ -417,6 +417,53 @@ func abstractCases() []c07Case {
 		wrap("cell:inst:interface-ok", "interface IF1 { function m(); }\nclass CO implements IF1 { function m() { return 1; } }\n", "$x = new CO();", "allow"),
 		wrap("cell:inst:inherited-interface-missing", "interface IF0 { function z(); }\ninterface IF1 extends IF0 { function m(); }\nclass CO implements IF1 { function m() { return 1; } }\n", "$x = new CO();", "deny"),
 	}
+	// a promise made d classes above the concrete leaf (abstract method / interface on an abstract
+	// ancestor / method of that interface's parent interface), kept by an intermediate abstract class,
+	// by the leaf, or by nobody: new Leaf() is allowed iff somebody keeps it
+	for _, source := range []string{"abstract-method", "interface-on-ancestor", "parent-interface-on-ancestor"} {
+		for d := 1; d <= 3; d++ {
+			for keeper := -1; keeper <= d; keeper++ { // -1 nobody, 0..d-1 abstract class index (0 = promiser), d = the leaf
+				if keeper == 0 && source == "abstract-method" {
+					continue // the promiser cannot both declare it abstract and define it
+				}
+				var decl strings.Builder
+				switch source {
+				case "interface-on-ancestor":
+					decl.WriteString("interface PI { function pm(); }\n")
+				case "parent-interface-on-ancestor":
+					decl.WriteString("interface PI0 { function pm(); }\ninterface PI extends PI0 { }\n")
+				}
+				for c := 0; c < d; c++ {
+					fmt.Fprintf(&decl, "abstract class PA%d", c)
+					if c > 0 {
+						fmt.Fprintf(&decl, " extends PA%d", c-1)
+					} else if source != "abstract-method" {
+						decl.WriteString(" implements PI")
+					}
+					decl.WriteString(" {")
+					if c == 0 && source == "abstract-method" {
+						decl.WriteString(" abstract function pm();")
+					}
+					if keeper == c {
+						decl.WriteString(" function pm() { return 1; }")
+					}
+					fmt.Fprintf(&decl, " function other%d() { return 0; } }\n", c)
+				}
+				fmt.Fprintf(&decl, "class PLeaf extends PA%d {", d-1)
+				if keeper == d {
+					decl.WriteString(" function pm() { return 1; }")
+				}
+				decl.WriteString(" }\n")
+				want, kept := "allow", "kept"
+				if keeper < 0 {
+					want, kept = "deny", "kept-by-nobody"
+				}
+				out := wrap(fmt.Sprintf("cell:inst:promise:%s:depth%d:%s", source, d, kept), decl.String(), "$x = new PLeaf();", want)
+				cases = append(cases, out)
+			}
+		}
+	}
+	return cases
 }
 
 func c07JudgeInst(pool *sb.Pool, rec *sb.Rec, c c07Case) *failure {
@@ -448,7 +495,7 @@ func TestC07(t *testing.T) {
 	cfg := sb.LoadConfig("C07")
 	rec := sb.NewRec(cfg)
 	defer rec.Flush()
-	rec.R.Rule = "complete cross product: (a) member kind {property, method, constant} x modifier {public, protected, private} x {instance, static} x access site {outside, function, unrelated class, same class, subclass, sibling subclass, closure defined inside / outside the class, parent::} x operation {read, write, call, dynamic-name read, dynamic-name call}, over two hierarchy depths and seeded class names; (b) declared type {int, string, array, class, interface, ?int, ?class, int|string, float, bool} x runtime value kind {int, numeric string, string, float, bool, null, array, instance, subclass instance, implementor, unrelated object} x boundary {typed property, function / method / static method / constructor / closure parameter, return}; (c) abstract / interface instantiation and missing abstract implementations. Non-trivial = a denied/rejected cell, or an allowed/accepted cell that has a denied/rejected sibling (same member or type, other site or value); distinct by cell."
+	rec.R.Rule = "complete cross product: (a) member kind {property, method, constant} x modifier {public, protected, private} x {instance, static} x access site {outside, function, unrelated class, same class, subclass, sibling subclass, closure defined inside / outside the class, parent::} x operation {read, write, call, dynamic-name read, dynamic-name call}, over two hierarchy depths and seeded class names; (b) declared type {int, string, array, class, interface, ?int, ?class, int|string, float, bool} x runtime value kind {int, numeric string, string, float, bool, null, array, instance, subclass instance, implementor, unrelated object} x boundary {typed property, function / method / static method / constructor / closure parameter, return}; (c) abstract / interface instantiation and missing abstract implementations, incl. promises (abstract method, interface on an abstract ancestor, method of that interface's parent) made 1..3 classes above the leaf and kept by an intermediate class, by the leaf or by nobody. Non-trivial = a denied/rejected cell, or an allowed/accepted cell that has a denied/rejected sibling (same member or type, other site or value); distinct by cell."
 	pool := &sb.Pool{}
 	defer pool.Close()
 	if cfg.Replay != "" {
